@@ -33,7 +33,27 @@ def install(mypid):
         except Exception:
             return
         if tf is not None and tmatch.search(s):
-            tf.write(s + "\n"); tf.flush()
+            # who asked for this state save?  (state.py public method <- builder function:line) - lets the harness pick one
+            # kill point per distinct call site instead of sampling blindly
+            sig = ""
+            try:
+                f = sys._getframe(1)
+                meth = site = None
+                first = None
+                while f is not None:
+                    fn = f.f_code.co_filename
+                    if "/bob/" in fn and first is None and not fn.endswith("bob/state.py"):
+                        first = "%s:%s:%d" % (os.path.basename(fn), f.f_code.co_name, f.f_lineno)
+                    if fn.endswith("bob/state.py") and not f.f_code.co_name.startswith("_"):
+                        meth = f.f_code.co_name
+                    elif meth is not None and not fn.endswith("bob/state.py"):
+                        site = "%s:%s:%d" % (os.path.basename(fn), f.f_code.co_name, f.f_lineno)
+                        break
+                    f = f.f_back
+                sig = " | %s<%s" % (meth, site) if meth else " | %s" % first
+            except Exception:
+                pass
+            tf.write(s + sig + "\n"); tf.flush()
         if kill_at and match.search(s):
             cnt[0] += 1
             if cnt[0] == kill_at:
@@ -55,6 +75,10 @@ def main():
     repo = os.environ.get("VERIF_REPO", "/repo")
     sys.path.insert(0, os.path.join(repo, "pym"))
     install(os.getpid())
+    ctl = os.environ.get("VERIF_CTL")
+    if ctl:
+        with open(os.path.join(ctl, "bobpid"), "w") as f:
+            f.write(str(os.getpid()))
     from bob.scripts import bob
     return bob(os.path.join(repo, "bob"))
 
